@@ -176,6 +176,8 @@ def make_uod(run: "Run", totalizer=True):
          .with_tag(SelectTag("Out2", value="Closed", unit=None, choices=["Open", "Closed"], direction=TagDirection.Output))
          .with_tag(Tag("Free", value=0.0, unit=None, direction=TagDirection.Output))
          .with_tag(Tag("Temp", value=20.0, unit="degC"))
+         .with_tag(Tag("Conc", value=10.0, unit="vol%"))         # percentage family: are_comparable is not symmetric there
+         .with_tag(Tag("Pct", value=10.0, unit="%"))
          .with_command(name="Inst", exec_fn=inst, init_fn=init, finalize_fn=fin, arg_parse_fn=None)
          .with_command_regex_arguments("Long", RegexNumber(units=None, non_negative=True, int_only=True), long_, init, fin)
          .with_command(name="Hang", exec_fn=hang, init_fn=init, finalize_fn=fin, arg_parse_fn=None)
